@@ -53,6 +53,22 @@ func (s *SwappableDB) Swap(path string, fkConstraints, walEnabled bool) error {
 		return fmt.Errorf("invalid SQLite data")
 	}
 
+	// The header check alone lets through a file that SQLite itself refuses to
+	// open (e.g. a truncated database). Open the new file where it is, in the
+	// mode it will be used in, before the current database is given up: after
+	// that point a failure would leave this object without any database.
+	probe, err := OpenWithDriver(s.drv, path, fkConstraints, walEnabled)
+	if err != nil {
+		RemoveWALFiles(path)
+		return fmt.Errorf("invalid SQLite data: %s", err)
+	}
+	if err := probe.Close(); err != nil {
+		return fmt.Errorf("failed to close new database after validation: %s", err)
+	}
+	if err := RemoveWALFiles(path); err != nil {
+		return fmt.Errorf("failed to remove WAL files of new database: %s", err)
+	}
+
 	s.dbMu.Lock()
 	defer s.dbMu.Unlock()
 	if err := s.db.Close(); err != nil {
